@@ -55,6 +55,7 @@ class Exec(object):
         self.events = 0
         self.check_fn = None
         self.pre_fn = None
+        self.settings = {}          # actor -> {'pretty': bool, 'trap_complex': bool} as assigned by the program
         self.max_viol = 4
         self.stop = False
 
@@ -155,6 +156,39 @@ class Exec(object):
             rec = {'id': st.get('id'), 'kind': 'drop', 'status': 'ok'}
             w.log.append(rec)
             self.check(st, rec, 'after')
+            return rec
+        if k == 'setting':
+            actor = st['actor']
+            if actor not in w.actors:
+                return None
+            rec = {'id': st.get('id'), 'kind': 'setting', 'actor': actor, 'name': st['name'], 'value': st['value']}
+            try:
+                setattr(w.actors[actor], st['name'], st['value'])
+                rec['status'] = 'ok'
+                self.settings.setdefault(actor, {})[st['name']] = st['value']
+            except Exception as e:
+                rec['status'] = 'raised'; rec['exc'] = codec.enc_exc(e)
+            w.log.append(rec)
+            self.check(st, rec, 'after')
+            return rec
+        if k == 'nestedstep':
+            # a step another actor's callback ran on this actor (kept in this actor's solo projection)
+            actor = st['actor']
+            if actor not in w.actors or actor == 'fp':
+                return None
+            inner = dict(st['step']); inner['actor'] = actor; inner['kind'] = 'call'; inner['id'] = st.get('id')
+            saved = self.model.get(actor)
+            rec = None
+            try:
+                with w.actors[actor].workprec(st['workprec']):
+                    self.model.set_prec(actor, st['workprec'])
+                    rec, res = w.exec_leaf(inner)
+            finally:
+                self.model.restore(actor, saved)
+            if rec is not None:
+                rec['_res'] = res
+                self.check(st, rec, 'after')
+                rec.pop('_res', None)
             return rec
         if k == 'reassert':
             for name in list(w.actors):
